@@ -121,9 +121,9 @@ func decide(t fataler, s *graph.Scenario, plans map[int]graph.WrapPlan, tag stri
 	}
 	// ... then what every holder that the container actually created and populated holds
 	created := map[string]bool{}
-	for _, e := range in.Tracer.Events {
-		if e.Op == "create-exit" && !e.Err && e.Flag {
-			created[e.Name] = true
+	for id := range in.Comps {
+		if in.WasCreated(id) {
+			created[in.Comp(id).Name] = true
 		}
 	}
 	for _, c := range g.Pop {
